@@ -179,7 +179,7 @@ def run(chk):
         bath = oqupy.Bath(0.5 * SZ, corr)
         tau_ = rng.choice([None, 0.3]) if it != 0 else 0.3
         par = oqupy.TempoParameters(dt=dt, epsrel=eps, dkmax=rng.choice([None, 3]) if tau_ is None else 2, add_correlation_time=tau_,
-                                    subdiv_limit=rng.choice([None, 256]))
+                                    subdiv_limit=rng.choice([None, 256]) if it % 2 == 0 else 256)       # static field: the integrating branch
         if tau_ is not None:
             N = 7
         hfun = lambda t: 0.4 * SX + 0.3 * np.sin(1.7 * t) * SZ
@@ -187,14 +187,17 @@ def run(chk):
         lfun = lambda t: oqupy.operators.sigma("-") + 0.2 * np.cos(t) * SZ
         sysf = oqupy.TimeDependentSystemWithField(lambda t, a: hfun(t), gammas=[lambda t: gfun(t)], lindblad_operators=[lambda t: lfun(t)])
         sysp = oqupy.TimeDependentSystem(hfun, gammas=[gfun], lindblad_operators=[lfun])
-        mfs = oqupy.MeanFieldSystem([sysf], field_eom=lambda t, st, a: 0.3 * t - 0.1 * a)
+        # every second case: a field that does not move at all (equation of motion identically zero), every fourth one starting at 0
+        static = it % 2 == 1
+        f0 = (0.0 + 0j) if it % 4 == 3 else (0.1 + 0j)
+        mfs = oqupy.MeanFieldSystem([sysf], field_eom=(lambda t, st, a: 0.0 * a) if static else (lambda t, st, a: 0.3 * t - 0.1 * a))
         rho = oqupy.operators.spin_dm("x+")
-        info = {"kind": "field-independent", "dt": dt, "N": N, "start": start, "subdiv_limit": par.subdiv_limit}
+        info = {"kind": "field-independent", "dt": dt, "N": N, "start": start, "subdiv_limit": par.subdiv_limit, "static_field": static}
         try:
-            mf = quiet(oqupy.MeanFieldTempo(mfs, [bath], par, [rho], 0.1 + 0j, start).compute, start + N * dt, progress_type="silent")
+            mf = quiet(oqupy.MeanFieldTempo(mfs, [bath], par, [rho], f0, start).compute, start + N * dt, progress_type="silent")
             pl = quiet(oqupy.Tempo(sysp, bath, par, rho, start).compute, start + N * dt, progress_type="silent")
             pt = quiet(oqupy.pt_tempo_compute, bath, start, start + N * dt, parameters=par, progress_type="silent")
-            cf = quiet(oqupy.compute_dynamics_with_field, mfs, 0.1 + 0j, process_tensor_list=[pt], start_time=start, initial_state_list=[rho],
+            cf = quiet(oqupy.compute_dynamics_with_field, mfs, f0, process_tensor_list=[pt], start_time=start, initial_state_list=[rho],
                        subdiv_limit=par.subdiv_limit, progress_type="silent")
             cd = quiet(oqupy.compute_dynamics, sysp, initial_state=rho, process_tensor=pt, start_time=start, subdiv_limit=par.subdiv_limit, progress_type="silent")
         except Exception as ex:
